@@ -165,6 +165,12 @@ _CONTROL_CHAR_ESCAPE = str.maketrans(
         "\r": "\\r",
         "\f": "\\f",
         "\v": "\\v",
+        "\x1c": "\\x1c",
+        "\x1d": "\\x1d",
+        "\x1e": "\\x1e",
+        "\x85": "\\x85",
+        "\u2028": "\\u2028",
+        "\u2029": "\\u2029",
     }
 )
 
